@@ -12,7 +12,7 @@ SPEC = {
         "prune lock heights >= 1 (a lock at height 0 is never generated)",
     ],
     "stages": [
-        gen("vh_c19", "c19_prune", 160, 3000, min_cases_quick=48,
+        gen("vh_c19", "c19_prune", 160, 3000, min_cases_quick=24, max_seconds_quick=420,
             floors={"pruned-files": 0.4, "straddling-file": 0.25, "lock": 0.3, "lock-cuts-file": 0.05, "headers-ahead": 0.1, "reorg": 0.03,
                     "auto-prune-event": 0.12, "auto-stopped-under-target": 0.03, "auto-stopped-no-eligible-file": 0.04},
             rule="300-620 block chains with generated block sizes on 64 KiB files; manual prunes around tip-288 and lock-11, locks, reorgs, headers ahead; "
